@@ -747,9 +747,10 @@ class ConditionalEventSequenceEncoderDecoder(object):
       An input vector, a list of floats.
     """
     return (
-        self._control_encoder_decoder.events_to_input(
-            control_events, position + 1) +
-        self._target_encoder_decoder.events_to_input(target_events, position))
+        list(self._control_encoder_decoder.events_to_input(
+            control_events, position + 1)) +
+        list(self._target_encoder_decoder.events_to_input(
+            target_events, position)))
 
   def events_to_label(self, target_events, position):
     """Returns the label for the given position in the target event sequence.
